@@ -45,6 +45,16 @@ type Pigeon struct {
 	Hooks PigeonHooks
 	// Submitted is the log of accepted txs by kind (for oracles).
 	Sent map[string]int
+	// Log keeps the evidence / estimate transactions this pigeon got into the mempool, for oracles
+	// that must know what was submitted in the very block in which a tally happened.
+	Log []SentTx
+}
+
+// SentTx is one transaction a pigeon submitted.
+type SentTx struct {
+	Kind string
+	Msg  sdk.Msg
+	Tx   []byte
 }
 
 // PigeonHooks are optional Byzantine deviations.
@@ -71,6 +81,12 @@ func (p *Pigeon) send(kind string, msg sdk.Msg) bool {
 	res := p.B.Submit(p.V.Acct, msg)
 	if res.Accepted() {
 		p.Sent[kind]++
+		if kind == "evidence" || kind == "estimate" || kind == "publicaccess" || kind == "errordata" {
+			p.Log = append(p.Log, SentTx{kind, msg, res.Tx})
+			if len(p.Log) > 400 {
+				p.Log = p.Log[200:]
+			}
+		}
 		return true
 	}
 	return false
